@@ -9,6 +9,9 @@ HOT_OFF = 0x0e00
 HOT = 1024
 HOT_ADDR = DATA_ADDR + HOT_OFF
 CODE_ADDR = 0x30000000
+LOW_ADDR = 0x8000
+TOP_HOT_ADDR = 0xfc00                      # low='top': the hot bytes end at 0xffff, so 16-bit pointers can step across the wrap
+LOW_HOT_ADDR = LOW_ADDR + HOT_OFF          # the same 1024 hot bytes placed where 16-bit addressing reaches them (cases with low=True)
 REGS = ['eax', 'ecx', 'edx', 'ebx', 'esp', 'ebp', 'esi', 'edi']
 ARITH_FLAGS = ('cf', 'pf', 'af', 'zf', 'nf', 'df', 'of')
 FLAG_BITS = {'cf': 0, 'pf': 2, 'af': 4, 'zf': 6, 'nf': 7, 'df': 10, 'of': 11, 'ac': 18, 'i_d': 21}      # ac / i_d are only ever set by the pushf probes of C08
@@ -58,7 +61,7 @@ def run_cases(cases):
     for cs in cases:
         fp = cs.get('fp')
         code = cs['code']
-        buf += bytes([1 if fp else 0, len(code)]) + code.ljust(16, b'\x90')[:16]
+        buf += bytes([(1 if fp else 0) | (4 if cs.get('low') == 'top' else (2 if cs.get('low') else 0)), len(code)]) + code.ljust(16, b'\x90')[:16]
         buf += struct.pack('<8I', *[x & 0xffffffff for x in cs['regs']])
         buf += struct.pack('<I', cs['eflags'])
         buf += cs['hot']
